@@ -161,8 +161,9 @@ def _bind_half(chk, results, key, module, tag, groupfn, envfn, hs_up, hs_dn, out
         if key in r:
             have = True
         t = r.get(key)
-        if not t or r.get("spec", {}).get("sess", {}).get("hs_tun"):
-            # (sessions that were handed tun traffic during the handshake do not start in Tunnel.tla's initial state)
+        if not t or r.get("spec", {}).get("sess", {}).get("hs_tun") or r.get("spec", {}).get("redeliver_hs"):
+            # (sessions that were handed tun traffic during the handshake do not start in Tunnel.tla's initial state;
+            #  Tunnel.tla has no handshake requests in the middle of a transfer)
             skipped += 1
             continue
         if nbound >= BIND_CAP and i % 15:
